@@ -94,7 +94,47 @@ def py_core(a):
     return a
 
 
-def py_judge(params, sigma, targs, top):
+def _is_or_wraps(a, t):
+    import src.ir.types as tp
+    if a == t:
+        return True
+    return isinstance(a, tp.WildCardType) and a.bound is not None and a.bound == t and not isinstance(t, tp.WildCardType)
+
+
+def requested_by(pre, p, a):
+    """the argument stems from the caller's own assignments (for `p`, or for a parameter bounded by `p`)"""
+    pre = pre or {}
+    t = pre.get(p)
+    if t:
+        return _is_or_wraps(a, t)
+    return any(v is not None and getattr(k, "bound", None) is not None and k.bound == p and _is_or_wraps(a, v)
+               for k, v in pre.items())
+
+
+def bounds_respected(t, top, depth=0):
+    """every instantiation inside `t` gives each bounded parameter an argument within the substituted
+    bound (gen_types builds instantiations without looking at bounds)"""
+    import src.ir.types as tp
+    import refsub
+    if t is None or depth > 8:
+        return True
+    if isinstance(t, (tp.WildCardType, tp.TypeParameter)):
+        return bounds_respected(t.bound, top, depth + 1)
+    if isinstance(t, tp.ParameterizedType):
+        ps = list(t.t_constructor.type_parameters)
+        sigma = dict(zip(ps, t.type_args))
+        for p, a in zip(ps, t.type_args):
+            if not bounds_respected(a, top, depth + 1) or not bounds_respected(p.bound, top, depth + 1):
+                return False
+            if p.bound is None or (isinstance(a, tp.WildCardType) and a.bound is None):
+                continue
+            b = tp.substitute_type(p.bound, sigma)
+            if not (b == top or refsub.sub(py_core(a), b)):
+                return False
+    return True
+
+
+def py_judge(params, sigma, targs, top, pre=None):
     """the clauses of the property that need no model: one argument per parameter, no primitive, no bare
     constructor, argument (or the bound of its projection) within the substituted bound by the independent
     declarative decider refsub.  Returns a list of (param, clause)"""
@@ -111,6 +151,8 @@ def py_judge(params, sigma, targs, top):
         if targs is not None and i < len(targs) and not (targs[i] == a):
             bad.append((str(p), "argument-list-differs-from-map"))
         c = py_core(a)
+        if requested_by(pre, p, a):
+            continue
         for x in (a, c):
             if getattr(x, "primitive", False) or isinstance(x, tp.TypeConstructor):
                 bad.append((str(p), "primitive-or-bare-constructor"))
